@@ -67,6 +67,10 @@ class FlattenNestedLoopsPattern(RewritePattern):
                 for (lhs, rhs) in zip(inner_loop.results, outer_yield_op.operands)
             ):
                 return
+            # The outer iteration arguments disappear with the outer loop, they must
+            # not be used by anything but the inner loop's iteration arguments.
+            if not all(arg.has_one_use() for arg in outer_body.args[1:]):
+                return
         elif inner_loop.iter_args:
             return
 
@@ -120,12 +124,31 @@ class FlattenNestedLoopsPattern(RewritePattern):
                 # Do not currently handle lb != 0
                 return
 
-            factor = (inner_ub - inner_lb) // inner_step
-            factor_op = arith.ConstantOp(
-                builtin.IntegerAttr(factor, builtin.IndexType())
-            )
-            new_ub_op = arith.MuliOp(op.ub, factor_op.result)
-            rewriter.insert((factor_op, new_ub_op))
+            if inner_step <= 0 or outer_step <= 0:
+                return
+
+            # Number of iterations of the inner loop
+            factor = max(0, -((inner_lb - inner_ub) // inner_step))
+            outer_ub = const_evaluate_operand(op.ub)
+            if outer_step == 1 or (
+                outer_ub is not None and outer_ub % outer_step == 0
+            ):
+                # `ub * factor` in outer steps is the number of iterations of the nest
+                # if the outer range is a whole number of outer steps
+                factor_op = arith.ConstantOp(builtin.IntegerAttr(factor, op.ub.type))
+                new_ub_op = arith.MuliOp(op.ub, factor_op.result)
+                rewriter.insert((factor_op, new_ub_op))
+            elif outer_ub is not None:
+                # The flattened loop runs outer iterations * inner iterations times
+                outer_iterations = max(0, -(-outer_ub // outer_step))
+                new_ub_op = arith.ConstantOp(
+                    builtin.IntegerAttr(
+                        outer_iterations * factor * outer_step, op.ub.type
+                    )
+                )
+                rewriter.insert(new_ub_op)
+            else:
+                return
             new_ub = new_ub_op.result
             new_step = op.step
 
